@@ -5,6 +5,7 @@ import (
 	"encoding/json"
 	"fmt"
 	"os"
+	"os/exec"
 	"path/filepath"
 	"regexp"
 	"sort"
@@ -175,7 +176,18 @@ func init() {
 }
 
 func init() {
-	addSpec(&propSpec{ID: "C14B", Rule: "development alias: block half of C14", Assumptions: baseAssumptions})
+	addSpec(&propSpec{
+		ID:          "C14",
+		Rule:        "block half (plain build): for each source (classes as C01) and depth, the triple (n, err, dst[:n]) for destination sizes {bound, len(src), n*, n*-1, n*/2, 9} from a fresh object is compared with: an object reused after unrelated inputs, after related inputs (shifted by 1..3 bytes, halves swapped, truncated), after calls that failed on too-small destinations, after a larger input with positions beyond 64 KiB, the worker's long-lived object, the package function after other goroutines cycled the pools, and 8 goroutines compressing simultaneously. Frame half (-race build, block pool replaced by the poisoning quarantine pool, seeded scheduling perturbation): for each (stream, options) the sink bytes of concurrency {1,2,4,16} x Write partitions {one Write, random, block size +-1, 1..3-byte writes for small streams, large random} must equal one Write at concurrency 1; ReadFrom is compared with ReadFrom across concurrency and source fragmentation {plain, random sizes, data with EOF, zero-length reads}. Flush is excluded (it legitimately changes block boundaries). A cell is (half, source class / configuration, size class, depth / concurrency, history / partition style).",
+		Assumptions: append([]string{"schedules and histories are sampled (real histories only: no state is forged)"}, baseAssumptions...),
+		Variants:    func(string) []string { return []string{"asm", "race"} },
+		Require: func(rs *runState) string {
+			if rs.counters["determinism_comparisons"] == 0 || rs.counters["frame_emissions"] == 0 {
+				return "one half of the check did not run"
+			}
+			return ""
+		},
+	})
 }
 
 func init() {
@@ -325,6 +337,56 @@ func init() {
 			}
 			if rs.counters["race_logs_scanned"] == 0 && rs.counters["race_reports"] == 0 {
 				// no log file is written when there is no report; that is fine
+			}
+			return ""
+		},
+	})
+}
+
+// buildLz4c builds cmd/lz4c against the tree under test (its go.mod pins a release,
+// so an alternative module file with a replace directive is generated).
+func buildLz4c(rs *runState) error {
+	src := filepath.Join(repoDir, "cmd", "lz4c")
+	mod, err := os.ReadFile(filepath.Join(src, "go.mod"))
+	if err != nil {
+		return err
+	}
+	sum, _ := os.ReadFile(filepath.Join(src, "go.sum"))
+	bin := filepath.Join(verifDir, ".bin")
+	os.MkdirAll(bin, 0o755)
+	modPath := filepath.Join(bin, "lz4c.mod")
+	m := string(mod) + "\nreplace github.com/pierrec/lz4/v4 => " + repoDir + "\n"
+	if err := os.WriteFile(modPath, []byte(m), 0o644); err != nil {
+		return err
+	}
+	if err := os.WriteFile(filepath.Join(bin, "lz4c.sum"), sum, 0o644); err != nil {
+		return err
+	}
+	out := filepath.Join(bin, "lz4c")
+	cmd := exec.Command("go", "build", "-modfile="+modPath, "-o", out, ".")
+	cmd.Dir = src
+	cmd.Env = goEnv()
+	if b, err := cmd.CombinedOutput(); err != nil {
+		return fmt.Errorf("cannot build lz4c against the working tree: %v\n%s", err, b)
+	}
+	// make sure the binary really uses the tree under test
+	vb, err := exec.Command("go", "version", "-m", out).CombinedOutput()
+	if err != nil || !strings.Contains(string(vb), "=>") {
+		return fmt.Errorf("lz4c was not built against %s:\n%s", repoDir, vb)
+	}
+	rs.spec.Env = append(rs.spec.Env, "VERIF_LZ4C="+out)
+	return nil
+}
+
+func init() {
+	addSpec(&propSpec{
+		ID:          "C20",
+		Rule:        "lz4c is built from cmd/lz4c against the working tree (go build -modfile with a replace directive; checked with go version -m) and run in scratch directories: flag sets from a mixed-radix enumeration over -size {default,64K,256K,1M,4M} x -bc x -sc x -l {absent,0..9} x -c {absent,1,2} (all pairs occur), file sizes {0,1,1000, block size -1/=/+1, 3 blocks+777, random} x contents {text, random, mixed} x mode bits {0600,0644,0755} x umask {022,0}, file mode and stdin/stdout mode, every sixth case also two files in one invocation. Monitors: exit status / termination; the .lz4 output parsed by the independent frame parser (C09 rules); header bits against the usage text (-bc => block checksums, '-sc disable stream checksum' => content checksum absent with the flag and present without, -size => block-size code); -l N => byte-identical to the library Writer at level N; uncompress restores bytes and permission bits. A cell is (flag set, size class, mode, umask, file/stdio).",
+		Assumptions: append([]string{"third-party modules of lz4c (cmdflag, progressbar, bytefmt) are used as found in the module cache"}, baseAssumptions...),
+		Pre:         buildLz4c,
+		Require: func(rs *runState) string {
+			if rs.counters["multi_file_invocations"] == 0 || rs.counters["lz4c_cases"] < 100 {
+				return "too few lz4c invocations"
 			}
 			return ""
 		},
